@@ -7,7 +7,23 @@ RULeaves == {Leaf(f, neg) : <<f, neg>> \in FlagSet \X BOOLEAN}
 Constraints == ForestsUpTo(RULeaves, GroupKinds, FlagSet, MaxNodes)
 Configs == {c \in [iuse : SUBSET FlagSet, ft : SUBSET FlagSet, ff : SUBSET FlagSet, pt : SUBSET FlagSet] :
               InDomain(c.iuse, c.ft, c.ff)}
-Cases == {[toks |-> Render(x[1]), iuse |-> SetToSeq(x[2].iuse), ft |-> SetToSeq(x[2].ft),
+(* Nesting family over three flags: a (negated) conditional `a? ( b )` that is a member of a group of
+   every kind, before / after a plain or negated leaf, and the same one level deeper (a group of every
+   kind in a group of every kind), x every IUSE subset x no / one forced-on / one forced-off flag
+   (inside or outside IUSE) x nothing / everything preferred.                                      *)
+NF == {"a", "b", "c"}
+CondAB(cn) == Cond("a", cn, <<Leaf("b", FALSE)>>)
+NestCons ==
+  UNION {{<<Grp(x[1], <<CondAB(x[2]), Leaf("c", x[3])>>)>>, <<Grp(x[1], <<Leaf("c", x[3]), CondAB(x[2])>>)>>}
+         : x \in GroupKinds \X BOOLEAN \X BOOLEAN}
+  \cup {<<Grp(x[1], <<Grp(x[2], <<CondAB(x[3]), Leaf("c", FALSE)>>), Leaf("b", TRUE)>>)>>
+         : x \in GroupKinds \X GroupKinds \X BOOLEAN}
+NestConfigs == {[iuse |-> i, ft |-> f[1], ff |-> f[2], pt |-> p] :
+                  <<i, f, p>> \in (SUBSET NF) \X ({<<{}, {}>>} \cup {<<{y}, {}>> : y \in NF} \cup {<<{}, {y}>> : y \in NF})
+                                 \X {{}, NF}}
+Rec(c, g) == [toks |-> Render(c), iuse |-> SetToSeq(g.iuse), ft |-> SetToSeq(g.ft), ff |-> SetToSeq(g.ff), pt |-> SetToSeq(g.pt)]
+NestCases == {Rec(x[1], x[2]) : x \in NestCons \X NestConfigs}
+Cases == NestCases \cup {[toks |-> Render(x[1]), iuse |-> SetToSeq(x[2].iuse), ft |-> SetToSeq(x[2].ft),
            ff |-> SetToSeq(x[2].ff), pt |-> SetToSeq(x[2].pt)] : x \in Constraints \X Configs}
 ASSUME ndJsonSerialize(IOEnv.OUT, SetToSeq(Cases))
 =========================================================================
